@@ -298,7 +298,8 @@ def build_cases(seed, nprog, size, stats):
                 stats["P_with_" + tag] = stats.get("P_with_" + tag, 0) + 1
         for k, v in g.stats.items():
             stats["gen_" + k] = stats.get("gen_" + k, 0) + v
-        for rule in G.RULES + ["call_kind_inner_fn", "call_kind_inner_var", "call_kind_result_var", "match_empty"]:
+        for rule in G.RULES + ["call_kind_inner_fn", "call_kind_inner_var", "call_kind_result_var", "match_empty",
+                               "slice_assign_let", "pipe_tuple_const_to_var"]:
             g2, p2, rng2 = gen_case(s, size)
             mrng = Rng(s ^ (hash_str(rule) & 0xFFFFFFFF))
             mu = G.Mutator(g2, p2, mrng)
@@ -344,6 +345,10 @@ CTX_KINDS = ['top', 'nested', 'closure', 'lc', 'arm', 'catch', 'if', 'while', 'f
 # pinned tree; repaired in /repo 186dfd9, so an ACCEPTED mutant of that rule is an ordinary VIOLATION again.)
 KNOWN = {
     'match_empty': "accept:match_missing:empty guard list `match e { }` is never checked for exhaustiveness",
+    # the generated forms of corpus/tc_known (theorems `…_accepted_counterexample` of Props/C06.lean): the SAME findings, so the
+    # same signatures as the corpus files (known_findings.json)
+    'slice_assign_let': "accepted:const_lost_through_slice_assign",
+    'pipe_tuple_const_to_var': "accepted:const_tuple_members_to_var_params",
 }
 
 
